@@ -3,12 +3,12 @@
 import json, os, sys
 ROOT = os.path.dirname(os.path.dirname(os.path.abspath(__file__)))
 sys.path.insert(0, os.path.join(ROOT, "runner"))
-from props import PROPS, NOT_APPLICABLE, HOOK_COMMITS
+from props import PROPS, NOT_APPLICABLE, HOOK_COMMITS, NOT_READY
 
 ids = [json.loads(l)["id"] for l in open(os.path.join(ROOT, "properties.jsonl"))]
 checks = []
 for p in ids:
-    if p not in PROPS:
+    if p not in PROPS or p in NOT_READY:
         continue
     c = PROPS[p]
     checks.append(dict(
@@ -23,7 +23,7 @@ for p in ids:
         technique=c["technique"],
     ))
 na = [dict(property_id=p, reason=NOT_APPLICABLE.get(p, "check not built yet in this round (no claim made)"))
-      for p in ids if p not in PROPS]
+      for p in ids if p not in PROPS or p in NOT_READY]
 m = dict(
     version=1,
     setup_cmd="./check setup",
